@@ -223,6 +223,26 @@ theorem output_wellFormed (env : Env) (src : Bytes)
   rw [processFile_none_file]
   exact ⟨wellFormed_file _ hl, parsePcap_file_mod _ hl⟩
 
+/-- Statement order: a successful run executed every statement the front end produced
+(`planOf src`: the batches handed over by the parser, line by line), in order, and the frames of
+its records are exactly the frames of the expression statements' values — statement by
+statement, within a statement in generation order (`runFrames`/`stmtFrames`/`framesOf`). -/
+theorem output_in_statement_order (env : Env) (src : Bytes)
+    (h : (processFile env none src).outcome = .success) :
+    (processFile env none src).emitted.map (·.2) =
+      runFrames env (st0 none) (planOf src).batches.flatten := by
+  rw [processFile_eq] at h ⊢
+  obtain ⟨st', h1, h2⟩ := execFrom_success (planOf_final src) h
+  unfold execPlan
+  rw [h2, addStmts_frames _ h1]
+  simp [st0]
+
+/-- The same at the level of statement lists, for every start state. -/
+theorem statements_in_order (env : Env) (st st' : PState) (ss : List Stmt)
+    (h : addStmts env st ss = .ok st') :
+    st'.emitted.map (·.2) = st.emitted.map (·.2) ++ runFrames env st ss :=
+  addStmts_frames ss h
+
 /-- The empty program yields the bare header. -/
 theorem empty_program (env : Env) :
     (processFile env none []).outcome = .success ∧ (processFile env none []).file = Pcap.header := by
@@ -268,6 +288,11 @@ example : ∃ st1 st2, addStmts env (st0 none) (prog.take 3) = .ok st1 ∧ st1.e
     lookupReg st1.regs "p" = some (pktOf frameA) ∧
     addStmt env st1 (.expr (.ref ⟨L 3 1, [], ["p"]⟩)) = .ok st2 ∧ st2.emitted = [(320, frameA)] := by
   refine ⟨_, _, rfl, by decide, by decide, rfl, by decide⟩
+
+open Example in
+/-- statement order on the concrete program: `let` contributes nothing, each use one frame -/
+example : runFrames env (st0 none) prog = [frameA, frameA, frameB] ∧
+    (prog.map (stmtFrames env (st0 none))).length = 7 := by decide
 
 example : ∃ p', Pcap.writePacket 7 (Packet.ofFrame Example.frameA) =
     .ok (Pcap.record 7 Example.frameA) p' ∧ p'.frame = Example.frameA ∧ p'.headroom = 16 :=
